@@ -11,8 +11,8 @@ import (
 	"strings"
 	"testing"
 
-	"golang.org/x/perf/storage/benchfmt"
 	mc "golang.org/x/perf/internal/verifmc"
+	"golang.org/x/perf/storage/benchfmt"
 	"golang.org/x/perf/storage/query"
 )
 
